@@ -191,11 +191,17 @@ Init(c, id) ==
                            !.cs[c].cid = id, !.cs[c].inited = TRUE, !.cs[c].ann = id, !.cs[c].ninit = @ + 1]
     /\ Log("init", c, 0, 0, "", id)
 
+\* Will kinds: "L" lock (granted, or queued behind somebody's hold when it may wait), "U" unlock of a hold,
+\* "E" a will that can only END IN AN ERROR reply (unlock of a lock that is not held -> UNLOCK_ERROR, a DbId
+\* that names a database that was never created or 0xff -> UNKNOWN_DB; ProcessCommad returns the error of the
+\* reply it could not deliver).  The result class of a will does not influence the rest of the list: WillExec
+\* has no branch on it, and WillsOnce demands every later will all the same.
 RegisterWill(c, cmd, k, wait) ==
     /\ CanSend(c) /\ Len(st.cs[c].wills) < MaxWills /\ Len(st.reqs) < MaxReqs
     /\ k \in WillKeys
     /\ cmd = "U" /\ k # 0 => st.ks[k].h # 0 /\ st.reqs[st.ks[k].h].c = c      \* a will-unlock releases an own hold
     /\ cmd = "U" => ~wait
+    /\ cmd = "E" => k = 0 /\ ~wait
     /\ LET rid == Len(st.reqs) + 1
            lid == IF cmd = "U" /\ k # 0 THEN st.ks[k].h ELSE rid
        IN /\ st' = [st EXCEPT !.reqs = Append(@, [c |-> c, cmd |-> cmd, k |-> k, will |-> TRUE, wait |-> wait, lid |-> lid, s |-> "reg"]),
@@ -266,7 +272,9 @@ WillExec(c) ==
     /\ st.cs[c].st = "closing" /\ st.cs[c].pend # <<>>
     /\ LET w  == Head(st.cs[c].pend)
            S1 == [st EXCEPT !.cs[c].pend = Tail(@), !.exec[c] = Append(@, w)]
-       IN /\ st' = (IF st.reqs[w].cmd = "L" THEN ExecLock(S1, w) ELSE ExecUnlock(S1, w))
+       IN /\ st' = (CASE st.reqs[w].cmd = "L" -> ExecLock(S1, w)
+                      [] st.reqs[w].cmd = "U" -> ExecUnlock(S1, w)
+                      [] OTHER -> Deliver([S1 EXCEPT !.reqs[w].s = "done"], w, "ERROR", FALSE))
           /\ Log("willexec", c, st.reqs[w].k, w, st.reqs[w].cmd, 0)
 
 CloseFinish(c) ==
@@ -289,7 +297,7 @@ UrgentSteps == \E c \in Conns : (U1(c) /\ CloseMark(c)) \/ (U2(c) /\ WillExec(c)
 ClientSteps ==
     \/ \E c \in Conns, kind \in Kinds : Connect(c, kind)
     \/ \E c \in Conns, id \in Cids : Init(c, id)
-    \/ \E c \in Conns, cmd \in {"L", "U"}, k \in WillKeys, w \in BOOLEAN : RegisterWill(c, cmd, k, w)
+    \/ \E c \in Conns, cmd \in {"L", "U", "E"}, k \in WillKeys, w \in BOOLEAN : RegisterWill(c, cmd, k, w)
     \/ \E c \in Conns, k \in Keys, w \in BOOLEAN : ReqLock(c, k, w)
     \/ \E c \in Conns, k \in Keys : ReqUnlock(c, k)
     \/ \E c \in Conns, g \in BOOLEAN : Hangup(c, g)
